@@ -489,14 +489,14 @@ def add_twin_labels(rng, m, count=1):
 
 
 def tight_pair(rng, rid, qid):
-    """A reference only a few seeding bins longer than a reverse-strand query that covers nearly all of it."""
+    """A reference only about three 1400-bp seeding bins longer than a reverse-strand query that covers all of its labels:
+    the seeding correlation has ~3 lags, with the true one in the middle."""
     ref = ref_random(rng, rid, rng.randint(22, 40))
-    n = len(ref["pos"])
-    k = n - rng.randint(0, 2)
-    i = rng.randint(0, n - k)
-    rel = _window_coords(ref, i, k, True)
+    shift = rng.uniform(1500, 2600) - ref["pos"][0]
+    ref["pos"] = [r1(p + shift) for p in ref["pos"]]
+    ref["length"] = r1(ref["pos"][-1] + rng.uniform(1500, 2600))
+    rel = _window_coords(ref, 0, len(ref["pos"]), True)
     q = {"id": qid, "length": r1(rel[-1] + 1), "pos": [r1(p) for p in rel], "family": "tight"}
-    ref["length"] = r1(max(ref["pos"][-1] + rng.uniform(1, 2500), q["length"] + rng.uniform(1, 3000)))
     return ref, q
 
 
